@@ -96,6 +96,10 @@ class Ctx:
         with open(os.path.join(LEAN, ".lake", "verif.lock"), "w") as lk:
             fcntl.flock(lk, fcntl.LOCK_EX)
             rc, out = run(["lake", "build"] + list(targets) + ["driver"], cwd=LEAN, timeout=3000)
+            # private copy of the driver: a concurrent check may relink the shared binary at any time
+            if rc == 0 and os.path.exists(DRIVER):
+                self.driver_bin = self.path("driver_bin")
+                shutil.copy2(DRIVER, self.driver_bin)
             fcntl.flock(lk, fcntl.LOCK_UN)
         ok = rc == 0
         errs = "\n".join(l for l in out.splitlines() if "error" in l.lower())[:2000]
@@ -173,7 +177,7 @@ class Ctx:
     def driver(self, mode, ops_file, out_file, timeout=1200):
         with open(ops_file, "rb") as fi, open(out_file, "wb") as fo:
             try:
-                p = subprocess.run([DRIVER, mode], stdin=fi, stdout=fo, stderr=subprocess.PIPE, timeout=timeout)
+                p = subprocess.run([getattr(self, "driver_bin", DRIVER), mode], stdin=fi, stdout=fo, stderr=subprocess.PIPE, timeout=timeout)
                 return p.returncode == 0
             except subprocess.TimeoutExpired:
                 return False
